@@ -177,6 +177,7 @@ fn strategy() -> BoxedStrategy<C02Case> {
 		err_j: 0,
 		replace_action_at: 0,
 		throttle_change: None,
+		empty_errs: false,
 	};
 	let t_big = prop_oneof![Just(100u32), Just(160), Just(240), Just(300)];
 	prop_oneof![
